@@ -13,3 +13,4 @@ import DiplomatModel.Props.C16
 #print axioms DiplomatModel.Props.C16.js_str16_roundtrip
 #print axioms DiplomatModel.Props.C16.js_str16_size_exact
 #print axioms DiplomatModel.Props.C16.js_str16_bytes
+#print axioms DiplomatModel.Props.C16.js_str8_length_bounds
